@@ -124,8 +124,25 @@ fn inner(a: &Atom, m: &mut Matcher, hay: &str) -> (i64, Vec<u32>) {
 }
 
 pub fn record(id: u64, rng: &mut StdRng, shared: &mut Matcher, config: &Config) -> String {
-    let hay = gen_hay(rng);
-    let text = gen_pattern(rng, &hay);
+    // one record in 400: a long haystack without whitespace and a pattern of 3-5 long chunks of it, so that the atom
+    // scores add up to more than a u16 holds
+    let (hay, text) = if id % 400 == 7 {
+        let a: Vec<char> = "abcxyz/_-".chars().collect();
+        let hay: String = (0..6000).map(|_| *a.choose(rng).unwrap()).collect();
+        let k = rng.gen_range(3..=5);
+        let text = (0..k)
+            .map(|_| {
+                let st = rng.gen_range(0..6000 - 1300);
+                hay[st..st + rng.gen_range(1000..1300)].to_string()
+            })
+            .collect::<Vec<_>>()
+            .join(" ");
+        (hay, text)
+    } else {
+        let hay = gen_hay(rng);
+        let text = gen_pattern(rng, &hay);
+        (hay, text)
+    };
     let case = *[CaseMatching::Smart, CaseMatching::Smart, CaseMatching::Ignore, CaseMatching::Respect].choose(rng).unwrap();
     let norm = *[Normalization::Smart, Normalization::Smart, Normalization::Never].choose(rng).unwrap();
     let pattern = Pattern::parse(&text, case, norm);
